@@ -17,7 +17,8 @@ ASSUMPTIONS = ["IEEE rounding inside rate*dt is modelled (FloatOps.fillBytes), n
 RULE = ("two-endpoint scenarios with ceilings from 1472 B/s to 20 MB/s on either side, large backlogs, step cadences from 0.1 ms to seconds, repeated flushes per step, "
         "long pauses, loss and feedback patterns; the oracle slides over all pairs of emission instants and checks bytes(t1,t2] <= ceiling*(t2-t1+rtt) + 1472. "
         "Plus real Client/Server pairs whose four configured rates all differ (the ceiling of a direction is min(own max_send_rate, the max_receive_rate in the "
-        "peer's handshake frame), one side flooding, repeated flushes. Non-trivial: the endpoint emitted >= 5 frames. Distinct by (ceiling, cadence, backlog bucket, loss).")
+        "peer's handshake frame), one side flooding, repeated flushes. Round-7 family: a receive-only endpoint with a ceiling of about one frame per second owing "
+        "acknowledgements to a fast sender (what it transmits is acknowledgement frames only). Non-trivial: the endpoint emitted >= 5 frames. Distinct by (ceiling, cadence, backlog bucket, loss).")
 
 def bits_to_float(b):
     return struct.unpack("<d", struct.pack("<Q", int(b)))[0]
@@ -186,15 +187,36 @@ def fine_cadence_scenario(r, it, tier, idx):
     sim.run(1500 if tier == "quick" else 20000, dt, Net(), Net(), traffic, probe_every=50)
     return sim
 
+def ack_debt_scenario(r, it, tier, idx):
+    """a receive-only endpoint B with a ceiling of about one frame per second facing a fast sender: every received data frame
+    owes an acknowledgement group, B flushes after every step (and a few more times), so what B transmits is acknowledgement
+    frames only - they draw on the same credit and have to wait for it like data frames (round-7 change C13-g)."""
+    cfg = pick_cfg(r)
+    bwB = r.pick([1472, 1472, 2000, 3000])
+    cfg["bwA"] = 2_000_000; cfg["rbwB"] = 2_000_000; cfg["bwB"] = bwB; cfg["rbwA"] = r.pick([bwB, 2_000_000])
+    cfg["allocA"] = cfg["allocB"] = 1_000_000
+    sim = Sim(r, cfg, inter=it)
+    sim.ceiling = {"A": 2_000_000, "B": bwB}
+    dt = r.pick([500_000, 1_000_000, 2_000_000, 5_000_000])
+    per_tick = r.pick([1, 2, 4])
+    def traffic(sim, ep):
+        if ep == "A":
+            for _ in range(per_tick):
+                sim.send("A", r.below(4), r.pick([1, 1, 2, 3]), r.pick([10, 100, 400]))
+    extra = r.pick([0, 1, 3])
+    sim.meta = {"dt": dt, "bw": bwB, "extra": extra, "lat": 0}
+    sim.run(400 if tier == "quick" else 3000, dt, Net(), Net(loss=r.pick([0, 0, 300])), traffic, probe_every=10, extra_flush=extra)
+    return sim
+
 def streams(rng, tier, ctx, with_ep=True):
-    n = 24 if tier == "quick" else 300
+    n = 28 if tier == "quick" else 350
     it = Interactive("hc")
     cases = []; meta = {}
     try:
         for i in range(n):
             r = rng.fork()
             it.op("=== gen%d" % i)
-            fam = [rate_scenario, floor_scenario, blackout_scenario, fine_cadence_scenario, microstep_scenario, bunch_scenario][i % 6]
+            fam = [rate_scenario, floor_scenario, blackout_scenario, fine_cadence_scenario, microstep_scenario, bunch_scenario, ack_debt_scenario][i % 7]
             sim = fam(r, it, tier, i)
             cid = "r%d" % i
             cases.append((cid, sim.ops)); meta[cid] = sim
